@@ -976,7 +976,10 @@ class Replay:
                 if snapshot(obj, rng=True) != ref:
                     self.report("clone.independent", "using the %s changed the original" % how, tkey, label)
                 elif self.stats["clones"] % 3 == 0:
-                    self.probe_inplace(clone)          # training, arm changes and warm start on the copy
+                    for step in self.b.probe_labels(clone, False)[0]:     # incremental training first, then the long continuation
+                        if step["op"] == "partial_fit":
+                            self.b.call(clone, step, self.feat)
+                    self.probe_inplace(clone)          # refit, arm changes and warm start on the copy
                     if snapshot(obj, rng=True) != ref:
                         self.report("clone.independent", "training the %s changed the original: %s"
                                     % (how, "; ".join(diff(ref, snapshot(obj, rng=True)))), tkey, label)
